@@ -27,7 +27,6 @@ SHAPES = [
     ("inverse", [[0, 0], [0, 0], [0, 0]], True, T, dict(budget=1800, shard=8)),
     ("lossless", [[1, 1], [1, 1], [0, 1]], False, T, dict(budget=3000, shard=10)),
     ("inverse", [[0, 1], [0, 1]], True, T, dict(budget=3000, shard=10)),
-    ("lossless", [[1, 2], [0, 1]], False, T, dict(budget=2400, shard=8, params=dict(built="merge"))),
 ]
 
 
